@@ -147,6 +147,19 @@ def fixed_scenarios():
     hs.append(("F13-mixed-uid-key", {"provider": False, "nodes": NODES, "conf": conf_text([POOL_A]), "ops": base + [
         put(A), inf(A), flt(A, ["node1"]), bnd(A), dele(A), put(B), inf(B), flt(B, ["node1"]), bnd(B), inf(B), phase(B, 1),
         {"op": "event", "n": 0}, {"op": "resync", "ip": "10.100.0.2"}, bnd(B), inf(B), {"op": "resync", "ip": "@a0"}, {"op": "resync", "ip": "@a1"}]}))
+    # two pools on ONE floating-IP subnet (same subnet and gateway, disjoint ranges, different node subnets - utils.TestConfig has
+    # such a pair): a pod holds an IP of the SECOND of them across a restart / a reload; the next pods must not be given it
+    PA1 = {"nodeSubnets": ["10.1.0.0/24"], "subnet": "10.100.0.0/24", "gateway": "10.100.0.1", "vlan": 2, "ranges": [[S("10.100.0.2"), S("10.100.0.3")]]}
+    PA2 = {"nodeSubnets": ["10.2.0.0/24"], "subnet": "10.100.0.0/24", "gateway": "10.100.0.1", "vlan": 2, "ranges": [[S("10.100.0.6"), S("10.100.0.7")]]}
+    for how in ("restart", "reload"):
+        for ranges in ([["10.100.0.6"]], []):
+            T = mkpod("web-0", "uT", policy=2, ranges=ranges)
+            U, V = mkpod("web-1", "uU"), mkpod("web-2", "uV")
+            again = {"op": "restart"} if how == "restart" else {"op": "reload", "conf": conf_text([PA2, PA1])}
+            hs.append(("two-pools-one-subnet-%s-%d" % (how, len(ranges)), {"provider": False, "nodes": NODES, "conf": conf_text([PA1, PA2]), "ops": [
+                {"op": "sts_set", "ns": "ns1", "name": "web", "replicas": 3}, put(T), inf(T), flt(T, ["node2"]), bnd(T, "node2"), inf(T), phase(T, 1),
+                inf(T), again, {"op": "resync", "ip": "@a0"}, put(U), inf(U), flt(U, ["node2"]), bnd(U, "node2"), inf(U), put(V), inf(V),
+                flt(V, ["node2"]), bnd(V, "node2"), inf(V), {"op": "resync", "ip": "@a0"}, {"op": "resync", "ip": "@a1"}]}))
     # F1: late delete event of A after B is bound (same ranges / no ranges), all policies, with provider
     for policy in (0, 1, 2):
         A1, B1 = mkpod("web-0", "uA", policy=policy), mkpod("web-0", "uB", policy=policy)
@@ -726,7 +739,11 @@ def mon_c02(h, o, nwf, keys):
                     ok = sorted(e[0] for e in d["alloc"]) == sorted(e[0] for e in prev["alloc"])
                     out.append((lit(ok), si, "dp_takes_reserve", []))
         prev = d
-    return out + live_kept(h, o, nwf, "sticky_across_resync")
+    # "for as long as the reservation exists": an event or a resync item never drops the IPs of a never-policy key, or of an
+    # immutable statefulset pod whose index is below the replicas (the monitor of C03's never_kept / immutable_kept_sts)
+    kept = [(e, si, "sticky_reservation_kept" + kind[len("release_only_when_licensed"):], tags) for e, si, kind, tags in mon_c03(h, o, nwf, keys)
+            if kind.startswith("release_only_when_licensed(") and "pod_alive" not in kind]
+    return out + kept + live_kept(h, o, nwf, "sticky_across_resync")
 
 
 def sticky_scenarios(rng, ctx, n):
@@ -770,6 +787,11 @@ def sticky_scenarios(rng, ctx, n):
                     late = True            # the replacement is scheduled before the old pod's event is handled
                 else:
                     ops.append({"op": "drop_event", "n": 0})
+                    if rng.random() < 0.5:
+                        # galaxy-ipam was down when the pod went away and restarts: its tables - the stored policies included -
+                        # come back from the store, and the resync pass is what meets the pod's IPs
+                        ops.append({"op": "restart"})
+                        ops += [{"op": "resync", "ip": "@a%d" % a} for a in range(3)]
                     ops.append({"op": "resync", "ip": "@a%d" % rng.randrange(3)})
             p = newpod(j)
             # the scheduler's candidate list: all nodes, or what its other predicates left (node loss, cordon) - possibly no node
@@ -865,11 +887,35 @@ def policy_scenarios(rng, ctx, n):
         # sometimes a new process starts between the events and the pass: the tables are rebuilt from the store
         mid = [{"op": "restart"}] if rng.random() < 0.5 else []
         # (a Run cycle = the resync pass, then the pod-IP sync pass over the informer's pods, then - next cycle - resync again)
-        quiesce = [inf(p) for p in pods] + [{"op": "event", "n": 0}] * (2 * len(pods)) + mid + [{"op": "resync", "ip": "@a%d" % j} for j in range(8)] + \
+        # (the first pass is ONE pass over ONE snapshot - fetched once, its items handled in a random order - in half of the histories)
+        order = list(range(8))
+        rng.shuffle(order)
+        pass1 = [{"op": "resync_fetch"}] + [{"op": "resync_item", "ip": "@a%d" % j} for j in order] if rng.random() < 0.5 else \
+                [{"op": "resync", "ip": "@a%d" % j} for j in range(8)]
+        quiesce = [inf(p) for p in pods] + [{"op": "event", "n": 0}] * (2 * len(pods)) + mid + pass1 + \
                   [{"op": "sync_pod", "ns": p["Ns"], "name": p["Name"]} for p in pods] + [{"op": "resync", "ip": "@a%d" % j} for j in range(8)] + \
                   [{"op": "sync_pod", "ns": p["Ns"], "name": p["Name"]} for p in pods]
         hs.append(("policy:%d" % i, {"provider": rng.random() < 0.25, "nodes": NODES, "conf": conf, "ops": ops + quiesce, "_quiesce_from": len(ops)}))
         ctx.dist("scenario:policy")
+    # workloads of the same kind and name in TWO namespaces (prod/web, staging/web), immutable policy; the pods of both are gone and
+    # their events were lost; one of the workloads is deleted / scaled to zero; ONE resync pass meets both (either order): each IP is
+    # judged by its own namespace's workload
+    for first in (0, 1):
+        for gone in (None, 0):
+            for kind in ("sts", "sts2"):
+                A = mkpod("web-0", "tA%d%s%s" % (first, gone, kind), "sts", "web", 1, ns="ns1")
+                B = mkpod("web-0", "tB%d%s%s" % (first, gone, kind), "sts", "web", 1, ns="ns2")
+                ops = [{"op": "sts_set", "ns": "ns1", "name": "web", "replicas": 2}, {"op": "sts_set", "ns": "ns2", "name": "web", "replicas": 2}]
+                for p in (A, B):
+                    ops += [put(p), inf(p), flt(p), bnd(p, "node1"), inf(p), phase(p, 1), inf(p)]
+                for p in (A, B):
+                    ops += [dele(p), inf(p), {"op": "drop_event", "n": 0}]
+                ops += [{"op": "sts_set", "ns": "ns2" if kind == "sts" else "ns1", "name": "web", "replicas": gone}]
+                q = len(ops)
+                ops += [{"op": "resync_fetch"}, {"op": "resync_item", "ip": "@a%d" % first}, {"op": "resync_item", "ip": "@a%d" % (1 - first)},
+                        {"op": "resync_fetch"}, {"op": "resync_item", "ip": "@a0"}, {"op": "resync_item", "ip": "@a1"}]
+                hs.append(("namesake-workloads:%d:%s:%s" % (first, gone, kind), {"provider": False, "nodes": NODES, "conf": conf, "ops": ops, "_quiesce_from": q}))
+                ctx.dist("scenario:namesake-workloads")
     return hs
 
 
@@ -1028,6 +1074,11 @@ def routing_scenarios(rng, ctx, n):
                 ops += [dele(q), inf(q), {"op": "event", "n": 0}]
             for j in range(2):
                 q = mkpod("api-7f9c6d-n%d" % j, "n%d_%d" % (i, j), "dp", "api", pol)
+                ops += [put(q), inf(q), flt(q, sorted(NODES)), bnd(q, "@approved:%d" % rng.randrange(6))]
+            # ... and what the pools tell about their node subnets is what the configuration says, also afterwards: fresh pods
+            # of another app are offered every node and bound on any node Filter approved, until pools run dry
+            for j in range(rng.choice([3, 5])):
+                q = mkpod("late-%d" % j, "l%d_%d" % (i, j), "sts", "late", 0)
                 ops += [put(q), inf(q), flt(q, sorted(NODES)), bnd(q, "@approved:%d" % rng.randrange(6))]
             ctx.dist("scenario:routing-reserves-in-several-pools")
         if rng.random() < 0.35:
@@ -1194,10 +1245,14 @@ def rejected_reload_scenarios(rng, ctx):
                   dict(PB, ranges=[[S("10.102.0.2"), S("10.102.0.3")]]),                                              # outside the subnet
                   dict(PB, ranges=[[S("10.101.0.2"), S("10.101.0.3")], [S("10.101.0.3"), S("10.101.0.4")]])]          # overlapping
     good = conf_text([PA, PB])
-    for bi, pb in enumerate(bad_second):
+    other = conf_text([PAx, PB])
+    # ... or the text is a valid, different configuration FOLLOWED by more text (a stray bracket, a second document, a dangling
+    # token): not a JSON configuration at all
+    bad_texts = [conf_text([PAx, pb]) for pb in bad_second] + [other + "]", other + good, other + " x", other + "\n[]", "[]" + other]
+    for bi, badconf in enumerate(bad_texts):
         K = mkpod("web-0", "uK", ranges=[["10.100.0.2"]])
         ops = [{"op": "sts_set", "ns": "ns1", "name": "web", "replicas": 3}, put(K), inf(K), flt(K, ["node1"]), bnd(K, "node1"), inf(K),
-               {"op": "reload", "conf": conf_text([PAx, pb])}]
+               {"op": "reload", "conf": badconf}]
         for j in range(2):
             p = mkpod("web-%d" % (j + 1), "uM%d" % j)
             ops += [put(p), inf(p), flt(p, ["node1", "node2", "node3"]), bnd(p, "@approved:0")]
@@ -1221,8 +1276,15 @@ def mon_c20_plugin(h, o, nwf, keys):
         if d is None:
             break
         if op["op"] == "reload":
+            try:
+                json.loads(op["conf"])
+                isjson = True
+            except ValueError:
+                isjson = False
+            if not isjson:
+                out.append((lit(st.get("res") != "ok"), si, "text_that_is_not_json_is_rejected", []))
             if st.get("res") == "ok":
-                cpools = conf_pools(op["conf"])
+                cpools = conf_pools(op["conf"]) if isjson else None
             elif prev is not None:
                 out.append((lit(d["alloc"] == prev["alloc"] and d["unalloc"] == prev["unalloc"]), si, "rejected_reload_changes_nothing", []))
         if op["op"] == "bind" and st.get("res") == "ok" and cpools is not None:
